@@ -45,28 +45,40 @@ func streamFieldX(c *Ctx, e *ir.Expr, field string) bool {
 
 // depositPositive: predicate "stream.Deposit.Amount > 0" holds.
 func depositPositive(c *Ctx) ir.Matcher {
+	// "the stored deposit is positive", however it is spelled: Amount.GT(0), 0.LT(Amount), !Amount.LTE(0),
+	// Amount.IsPositive(), Deposit.IsPositive()
+	isDepAmount := func(e *ir.Expr) bool {
+		a := c.W.Expand(e, 3)
+		if a.Op == "field" && a.Name == "Amount" && len(a.Args) == 1 && isStreamField(a.Args[0], "Deposit") {
+			return true
+		}
+		// Amount of Deposit after phi distribution
+		n := 0
+		for _, x := range a.Alts() {
+			if x.Op == "zero" {
+				continue
+			}
+			n++
+			if !(x.Op == "field" && x.Name == "Amount" && len(x.Args) == 1 && isStateField(x.Args[0], secStreams, "Deposit")) {
+				return false
+			}
+		}
+		return n > 0
+	}
 	return func(p ir.Pred) bool {
-		if !p.Pol || p.E.Op != "call" || !strings.HasSuffix(p.E.Name, "math.Int).GT") || len(p.E.Args) != 2 {
+		if p.E == nil || p.E.Op != "call" {
 			return false
 		}
-		a := c.W.Expand(p.E.Args[0], 3)
-		okA := a.Op == "field" && a.Name == "Amount" && len(a.Args) == 1 && isStreamField(a.Args[0], "Deposit")
-		if !okA {
-			// Amount of Deposit after phi distribution
-			okA = true
-			n := 0
-			for _, x := range a.Alts() {
-				if x.Op == "zero" {
-					continue
-				}
-				n++
-				if !(x.Op == "field" && x.Name == "Amount" && len(x.Args) == 1 && isStateField(x.Args[0], secStreams, "Deposit")) {
-					okA = false
-				}
-			}
-			okA = okA && n > 0
+		if intCmpIs(p, ">", isDepAmount, isZeroInt) {
+			return true
 		}
-		return okA && isZeroInt(p.E.Args[1])
+		if p.Pol && calleeIs(p.E, "math.Int).IsPositive") && len(p.E.Args) == 1 && isDepAmount(p.E.Args[0]) {
+			return true
+		}
+		if p.Pol && calleeIs(p.E, "types.Coin).IsPositive") && len(p.E.Args) == 1 && isStreamField(c.W.Expand(p.E.Args[0], 3), "Deposit") {
+			return true
+		}
+		return false
 	}
 }
 
@@ -684,6 +696,7 @@ func C11(c *Ctx) {
 		}
 		return w.FlatReaches(root, nil, cut, target) == nil
 	}
+	_, _ = noDeposit, settledBeforeP
 	settledBefore := func(f *ssa.Function, site ssa.Instruction, extra map[[2]int]bool) bool {
 		root := w.FlatRoot(f)
 		cut := &ir.FlatCut{Matcher: noDepositM, Depth: 1, Barrier: settled}
@@ -792,50 +805,53 @@ func C11(c *Ctx) {
 		// edges on which "DepositZeroTime is after now" (not expired) holds: both zt.Before(now) and zt.Equal(now) are
 		// false there. Each half is established on its own edges; an edge carries a half also when it can only be reached
 		// through an edge that does (the else-edge of the second test of `A || B`, or the false edge of `if expired`
-		// with expired := A || B held in a variable).
-		half := func(method string) map[[2]int]bool {
-			es := w.EstablishedEdges(f, func(pr ir.Pred) bool {
-				e := pr.E
-				return !pr.Pol && calleeIs(e, method) && len(e.Args) == 2 && streamFieldX(c, e.Args[0], "DepositZeroTime") && isBlockTime(e.Args[1])
-			}, 0)
-			out := map[[2]int]bool{}
-			for k := range es {
-				out[k] = true
-			}
-			for _, b := range f.Blocks {
-				if len(b.Instrs) == 0 || b.Index == 0 {
-					continue
+		// with expired := A || B held in a variable). Computed in every call context of the flat view (the classification
+		// may sit in a helper that returns a verdict).
+		notExpiredEdges := func(cx *ir.FCtx) map[[2]int]bool {
+			g := cx.Fn
+			half := func(method string) map[[2]int]bool {
+				es := w.EstablishedEdgesIn(cx, func(pr ir.Pred) bool {
+					e := pr.E
+					return !pr.Pol && calleeIs(e, method) && len(e.Args) == 2 && streamFieldX(c, e.Args[0], "DepositZeroTime") && isBlockTime(e.Args[1])
+				}, 0)
+				out := map[[2]int]bool{}
+				for k := range es {
+					out[k] = true
 				}
-				if !ir.Reaches(f, b.Instrs[len(b.Instrs)-1], ir.Cut{Edges: es}) {
-					for si := range b.Succs {
-						out[[2]int{b.Index, si}] = true
+				for _, b := range g.Blocks {
+					if len(b.Instrs) == 0 || b.Index == 0 {
+						continue
+					}
+					if !ir.Reaches(g, b.Instrs[len(b.Instrs)-1], ir.Cut{Edges: es}) {
+						for si := range b.Succs {
+							out[[2]int{b.Index, si}] = true
+						}
 					}
 				}
+				return out
 			}
-			return out
-		}
-		cut := map[[2]int]bool{}
-		for k := range noDeposit(f) {
-			cut[k] = true
-		}
-		notBefore, notEqual := half("time.Time).Before"), half("time.Time).Equal")
-		for k := range notBefore {
-			if notEqual[k] {
+			cut := map[[2]int]bool{}
+			notBefore, notEqual := half("time.Time).Before"), half("time.Time).Equal")
+			for k := range notBefore {
+				if notEqual[k] {
+					cut[k] = true
+				}
+			}
+			// ... or it is tested positively: DepositZeroTime.After(now) / now.Before(DepositZeroTime) holds
+			for k := range w.EstablishedEdgesIn(cx, func(pr ir.Pred) bool {
+				e := pr.E
+				if !pr.Pol || len(e.Args) != 2 {
+					return false
+				}
+				return calleeIs(e, "time.Time).After") && streamFieldX(c, e.Args[0], "DepositZeroTime") && isBlockTime(e.Args[1]) ||
+					calleeIs(e, "time.Time).Before") && isBlockTime(e.Args[0]) && streamFieldX(c, e.Args[1], "DepositZeroTime")
+			}, 0) {
 				cut[k] = true
 			}
+			return cut
 		}
-		// ... or it is tested positively: DepositZeroTime.After(now) / now.Before(DepositZeroTime) holds
-		for k := range w.EstablishedEdges(f, func(pr ir.Pred) bool {
-			e := pr.E
-			if !pr.Pol || len(e.Args) != 2 {
-				return false
-			}
-			return calleeIs(e, "time.Time).After") && streamFieldX(c, e.Args[0], "DepositZeroTime") && isBlockTime(e.Args[1]) ||
-				calleeIs(e, "time.Time).Before") && isBlockTime(e.Args[0]) && streamFieldX(c, e.Args[1], "DepositZeroTime")
-		}, 0) {
-			cut[k] = true
-		}
-		r.Require(settledBeforeP(f, func(p ir.FPos) bool { return isSendSite(p.In) }, cut), "A3.settle-before-change", "topup-expired|"+fn(f), pos(c, send.Site), "topping up an expired stream with a positive deposit first settles the remainder to the receiver", "the transfer is reachable for an expired, funded stream without settlement")
+		okTop := w.FlatReaches(w.FlatRoot(f), nil, &ir.FlatCut{Matcher: noDepositM, Depth: 1, Barrier: settled, Edges: notExpiredEdges}, func(p ir.FPos) bool { return isSendSite(p.In) }) == nil
+		r.Require(okTop, "A3.settle-before-change", "topup-expired|"+fn(f), pos(c, send.Site), "topping up an expired stream with a positive deposit first settles the remainder to the receiver", "the transfer is reachable for an expired, funded stream without settlement")
 	}
 	// cancel: covered structurally in C10 (claim<refund); repeated here as the C11 clause
 	for _, f := range w.Funcs {
@@ -939,7 +955,18 @@ func restartResetsOutflow(c *Ctx, isClaimIn func(*ssa.Function) func(ssa.Instruc
 				bad := ""
 				for _, site := range sites {
 					site := site
-					if occ := w.FlatReaches(root, nil, &ir.FlatCut{Barrier: reset}, func(p ir.FPos) bool { return p.Ctx == root && p.In == site }); occ != nil {
+					// a restart that happens only while the stored deposit is positive (the remainder re-scheduled at a new rate)
+					// is preceded by a settlement that actually ran: the paths on which the settlement was skipped for an empty
+					// deposit do not lead there (the deposit changes only through the settlement, which resets, or after the restart)
+					var m ir.Matcher
+					if len(w.FlatGuarded(f, func(in ssa.Instruction) bool { return in == site }, depositPositive(c), 1)) == 0 {
+						m = func(pr ir.Pred) bool {
+							q := pr
+							q.Pol = !q.Pol
+							return depositPositive(c)(q)
+						}
+					}
+					if occ := w.FlatReaches(root, nil, &ir.FlatCut{Matcher: m, Depth: 1, Barrier: reset}, func(p ir.FPos) bool { return p.Ctx == root && p.In == site }); occ != nil {
 						if wr := w.FlatReaches(root, occ, &ir.FlatCut{Barrier: reset}, func(p ir.FPos) bool { return isWrite(p.In) }); wr != nil {
 							bad = "the stream is stored at " + w.InstrPos(wr.In) + " with a deposit-zero time counted from now, on a path with neither a settlement nor LastOutflowTime = block time"
 						}
